@@ -31,6 +31,12 @@ RULE = ('one run = one seeded source history (undo records, deletions, '
         'damage is an unchanged input transaction, ids increase; one '
         'evaluation = one copy or one recovery; non-trivial = >= 2 source '
         'transactions; distinct = (arm, source hash, variant)')
+RULE += ('  '
+         'Later additions: output transactions are identified by '
+         'content before they are compared by id (fsrecover re-stamps '
+         'ids that are out of order); damage aimed at the records '
+         'later back pointers lead to; a run that does not terminate '
+         'is a violation. ')
 BUDGET = {'quick': {'runs': 4000, 'wall': 300, 'chunk': 10},
           'thorough': {'runs': 300000, 'wall': 1200, 'chunk': 50}}
 ASSUMPTIONS = [
